@@ -41,6 +41,11 @@ class SearchHooks(Hooks):
     def on_call(self, node, fname, args, kwargs, st, eng):
         if fname == "self.calculate_excess" and len(args) >= 2:
             e = exc(args[0], args[1])
+            rn = self._right_name(eng)
+            if rn is not None and rn in st.env and not any(ev.kind == "XR0" for ev in st.events):
+                # the right end of the interval is what its local holds when the first candidate is evaluated (it may have been
+                # given a default, a marker and then its value by then)
+                st.emit("XR0", st.env.get(rn), node)
             spec = kwargs.get("field_specifier", args[2] if len(args) > 2 else None)
             st.emit("EVAL", (args[0], args[1], spec, e, _domain_index(node.args[0], st, eng)), node)
             return e
@@ -64,10 +69,6 @@ class SearchHooks(Hooks):
             k = sum(1 for e in st.events if e.kind == "OPAQUE" and e.data[0] == key and e.node is stmt)
             st.env[key] = Rat.atom(f"{key}#{stmt.lineno}" + (f".{k}" if k else ""))  # fresh per execution of the statement
             st.emit("OPAQUE", (key, val.text), stmt)
-        if "[" not in key and "." not in key and not any(e.kind == "XR0" for e in st.events):
-            rn = self._right_name(eng)
-            if rn is not None and key == rn:
-                st.emit("XR0", st.env.get(rn), stmt)
         if key.startswith("self.calculated_temperatures["):
             idx = None
             for t in getattr(stmt, "targets", []):
@@ -273,7 +274,7 @@ def bisect_names(fn: ast.FunctionDef) -> dict:
     if id(fn) in _BISECT_CACHE:
         return _BISECT_CACHE[id(fn)]
     out = None
-    for loop in [n for n in walk_no_nested(fn) if isinstance(n, ast.While)]:
+    for loop in [n for n in walk_no_nested(fn) if isinstance(n, ast.While) or (isinstance(n, ast.For) and isinstance(n.iter, ast.Call) and attr_chain(n.iter.func) == "range")]:
         for s_ in ast.walk(loop):
             if isinstance(s_, ast.Assign) and len(s_.targets) == 1 and isinstance(s_.targets[0], ast.Name):
                 ab = _half_sum_names(s_.value)
@@ -306,8 +307,14 @@ def bisect_names(fn: ast.FunctionDef) -> dict:
                 if isinstance(x, ast.Name) and x.id in sign_defs:
                     ref = x.id
     out["ref_sign"] = ref
-    t = loop.test
-    out["counter"] = t.left.id if isinstance(t, ast.Compare) and isinstance(t.left, ast.Name) else None
+    if isinstance(loop, ast.While):
+        t = loop.test
+        out["counter"] = t.left.id if isinstance(t, ast.Compare) and isinstance(t.left, ast.Name) else None
+    else:
+        # for _ in range(max_iter): the loop variable, or a local the body counts up by one
+        incs = [s_.target.id for s_ in loop.body if isinstance(s_, ast.AugAssign) and isinstance(s_.op, ast.Add) and isinstance(s_.target, ast.Name)
+                and isinstance(s_.value, ast.Constant) and s_.value.value == 1]
+        out["counter"] = incs[0] if incs else (loop.target.id if isinstance(loop.target, ast.Name) and loop.target.id != "_" else None)
     _BISECT_CACHE[id(fn)] = out
     return out
 
